@@ -3,7 +3,9 @@
  * binary radix tree of the 64-bit keys (morton || index).  Contracts below are
  * the per-function statements of that (Karras 2012) construction. */
 #ifdef SPEC_CONTRACTS
-#define NMAX (1 << 29) /* Collider ctor: int num_nodes = 2*n-1, and i + 4n must fit int */
+#ifndef NMAX
+#define NMAX (1 << 29)
+#endif /* Collider ctor: int num_nodes = 2*n-1, and i + 4n must fit int */
 #define LM(s, k) ((s)->leafMorton_.ptr_[k])
 #define NLEAF(s) ((int)(s)->leafMorton_.size_)
 #define KEY64(s, k) ((((unsigned long)LM(s, k)) << 32) | (unsigned long)(unsigned)(k))
@@ -25,9 +27,47 @@
   __CPROVER_ensures(__CPROVER_return_value == DELTA(self, i, j))                           \
   __CPROVER_ensures(-1 <= __CPROVER_return_value && __CPROVER_return_value <= 63)          \
   __CPROVER_assigns()
+
+/* RangeEnd: "Determine direction of range (+1 or -1) ... Compute precise range
+ * length with binary search".  P(x) == "leaf i+dir*x shares more than delta_min
+ * bits with leaf i".  No symbolic multiplication in the spec (case split on dir). */
+#define AT(i, dir, x) ((dir) > 0 ? (i) + (x) : (i) - (x))
+#define PR(s, i, dir, cp, x) (DELTA(s, i, AT(i, dir, x)) > (cp))
+#define POW2(x) (((x) & ((x)-1)) == 0)
+#define DIRN(s, i) (DELTA(s, i, (i) + 1) > DELTA(s, i, (i)-1) ? 1 : -1)
+#define FNSPEC_RangeEnd                                                                     \
+  __CPROVER_requires(CRT_VALID(self) && 0 <= i && i < NLEAF(self))                          \
+  /* sorted distinct 64-bit keys give delta(i,i+1) != delta(i,i-1): lemma job key_lemma */ \
+  __CPROVER_requires(DELTA(self, i, i + 1) != DELTA(self, i, i - 1))                        \
+  __CPROVER_ensures(0 <= __CPROVER_return_value && __CPROVER_return_value < NLEAF(self))   \
+  __CPROVER_ensures(__CPROVER_return_value != i &&                                          \
+                    ((__CPROVER_return_value > i) == (DIRN(self, i) > 0)))                  \
+  __CPROVER_ensures(DELTA(self, i, __CPROVER_return_value) >                                \
+                    DELTA(self, i, i - DIRN(self, i)))                                      \
+  __CPROVER_ensures(DELTA(self, i, __CPROVER_return_value + DIRN(self, i)) <=               \
+                    DELTA(self, i, i - DIRN(self, i)))                                      \
+  __CPROVER_assigns()
+#define LOOPSPEC_RangeEnd_0                                                                 \
+  __CPROVER_assigns(max_length)                                                             \
+  __CPROVER_loop_invariant(128 <= max_length && max_length <= (1 << 30) && POW2(max_length) && \
+                           (max_length == 128 || PR(self, i, dir, commonPrefix, max_length >> 2))) \
+  __CPROVER_decreases((1 << 30) - max_length)
+#define LOOPSPEC_RangeEnd_1                                                                 \
+  __CPROVER_assigns(step, length)                                                           \
+  __CPROVER_loop_invariant(0 <= step && step <= (1 << 29) && POW2(step) && 0 <= length &&   \
+                           length <= max_length - step - step &&     \
+                           (length == 0 || PR(self, i, dir, commonPrefix, length)) &&       \
+                           (step != 0 || length >= 1) &&                                    \
+                           !PR(self, i, dir, commonPrefix, (step > 0 ? length + step + step : length + 1))) \
+  __CPROVER_decreases(step)
 #endif
 
 #ifdef SPEC_HARNESS
+void h_RangeEnd(void) {
+  struct CreateRadixTree *s;
+  int i;
+  RangeEnd(s, i);
+}
 void h_PrefixLength_u(void) {
   struct CreateRadixTree *s;
   unsigned a, b;
